@@ -2089,11 +2089,16 @@ impl<'a> BackendWriteTransaction<'a> {
         } = self;
 
         // write the ruv content back to the db.
+        #[cfg(feature = "verif-hooks")] crate::verif_hooks::fault::pause_point("w.be.start");
         idlayer.write_db_ruv(ruv.added(), ruv.removed())?;
+        #[cfg(feature = "verif-hooks")] crate::verif_hooks::fault::pause_point("w.be.ruv_written");
 
         idlayer.commit().map(|()| {
+            #[cfg(feature = "verif-hooks")] crate::verif_hooks::fault::pause_point("w.be.arc_done");
             ruv.commit();
+            #[cfg(feature = "verif-hooks")] crate::verif_hooks::fault::pause_point("w.be.ruv");
             idxmeta_wr.commit();
+            #[cfg(feature = "verif-hooks")] crate::verif_hooks::fault::pause_point("w.be.idxmeta");
         })
     }
 
@@ -4012,5 +4017,17 @@ mod tests {
 
         let r = be_b_txn.search(&lims, &filt);
         assert!(r.expect("Search failed!").len() == 1);
+    }
+}
+
+#[cfg(feature = "verif-hooks")]
+pub mod verif {
+    use super::*;
+
+    /// Persisted maximum change time as this backend transaction sees it.
+    pub fn db_ts_max<T: BackendTransaction>(
+        txn: &mut T,
+    ) -> Result<Option<Duration>, OperationError> {
+        txn.get_idlayer().get_db_ts_max()
     }
 }
